@@ -447,6 +447,10 @@ def checkC10 (req : List String) (obs : String) : Option String :=
         match readProgram text with
         | none => some "program-does-not-read-back"
         | some p =>
+          -- a runtime procedure that writes straight to the shared port produces bytes outside any frame
+          if (Scheme.symbols p.body).any (fun s => s = cl!"print-file-fid" || s = cl!"print-relative-path") then
+            some "unframed-write-in-framed-mode"
+          else
           let bad := p.bindings.findSome? fun (n, ini) =>
             if isPrefix (cl!"%lf3:print:") n then
               match ini with
